@@ -1,6 +1,6 @@
 (* C19 - Protocol messages mean the same to both ends and framing always terminates.
    Only statements, each closed by [exact]; proofs are in the files imported below. *)
-From BE Require Import Model.Wire Proofs.Wire Gen.Regexes Proofs.Pins Gen.Skeleton Proofs.SkeletonPin.
+From BE Require Import Model.Wire Proofs.Wire Gen.Regexes Proofs.Pins Gen.Skeleton Proofs.SkeletonPin Gen.WireFns Proofs.WireGen.
 Local Open Scope string_scope.
 Local Open Scope nat_scope.
 
@@ -111,6 +111,24 @@ Theorem C19_eof_anywhere :
                snd (recv_all fuel (sconcat (map frame ms) ++ substring 0 cut (frame m))%string) = (if cut =? 0 then true else false).
 Proof. exact eof_anywhere. Qed.
 Print Assumptions C19_eof_anywhere.
+
+(* send_message REGENERATED from socket_interface.py on every run (harness/gen_wire.py) equals the hand model *)
+Theorem C19_generated_send_is_hand_model :
+  forall m, g_send_message m = frame m.
+Proof. exact g_send_message_eq. Qed.
+Print Assumptions C19_generated_send_is_hand_model.
+
+(* receive_message regenerated (the byte loop on explicit fuel, proved sufficient) equals the hand model on EVERY byte stream - streams that end inside a message, after a CR, or with a CR not followed by LF included *)
+Theorem C19_generated_receive_is_hand_model :
+  forall s, g_receive_message s = receive_message s.
+Proof. exact g_receive_message_eq. Qed.
+Print Assumptions C19_generated_receive_is_hand_model.
+
+(* what the regenerated sender frames the regenerated receiver returns, whatever follows *)
+Theorem C19_generated_send_receive :
+  forall m rest, no_cr m -> g_receive_message (g_send_message m ++ rest) = RMsg m rest.
+Proof. exact g_send_receive. Qed.
+Print Assumptions C19_generated_send_receive.
 
 (* the structure of send_message / receive_message (socket calls, loop, returns), re-extracted from the source on this run, is the one Model/Wire.v mirrors *)
 Theorem C19_framing_skeleton_is_the_modelled_one :
